@@ -36,6 +36,12 @@ class Obligation:
         # kind 'bounded' is decided like 'proof' but reported separately
         else:
             self.status = 'discharged' if v.status == 'unsat' else ('failed' if v.status == 'sat' else 'undecided')
+            ni = getattr(self.path, 'info', {}).get('needs_invariant') if self.path is not None else None
+            if self.status == 'failed' and ni:
+                # the refuting path read state left by an ARBITRARY earlier use of the object; without a class invariant over
+                # that state a failed proof here is not a counterexample (it may not be reachable): undecided
+                self.status = 'undecided'
+                v.reason = 'needs a class invariant: %s' % ni
         return self
 
 
